@@ -34,7 +34,7 @@ BRANCH_FEATURES = {
     'base': dict(Sn=50.0, Vn1f=1.1),          # Vn1 = 1.1 * bus kV, own MVA base
     'off+parallel': dict(parallel_off=True),
 }
-BUS_DEVICES = ['pq', 'pq2', 'pv', 'pv+pq', 'shunt+pq', 'pqoff+pq']
+BUS_DEVICES = ['pq', 'pq2', 'pv', 'pv+pq', 'shunt+pq', 'pqoff+pq', 'shunt3+pq']
 
 
 def graphs(n):
@@ -78,7 +78,7 @@ def make_spec(n, edges, bfeat, bdev):
     for k in range(1, n):
         dev = bdev.get(k, 'pq')
         b = k + 1
-        if dev in ('pq', 'pq2', 'pv+pq', 'shunt+pq', 'pqoff+pq'):
+        if dev in ('pq', 'pq2', 'pv+pq', 'shunt+pq', 'pqoff+pq', 'shunt3+pq'):
             spec['PQ'].append(dict(idx=f'P{b}', bus=b, p0=0.25 + 0.05 * k, q0=0.08, Vn=kv[k], vmax=1.6, vmin=0.4))
         if dev == 'pq2':
             spec['PQ'].append(dict(idx=f'P{b}b', bus=b, p0=0.1, q0=-0.03, Vn=kv[k], vmax=1.6, vmin=0.4))
@@ -86,6 +86,11 @@ def make_spec(n, edges, bfeat, bdev):
             spec['PQ'].append(dict(idx=f'P{b}o', bus=b, p0=3.0, q0=1.0, Vn=kv[k], u=0, vmax=1.6, vmin=0.4))
         if dev in ('pv', 'pv+pq'):
             spec['PV'].append(dict(idx=f'G{b}', bus=b, p0=0.4, v0=1.01, Vn=kv[k], Sn=50.0, qmax=99.0, qmin=-99.0))
+        if dev == 'shunt3+pq':
+            # several shunts on one bus (own bases), the last one out of service
+            spec['Shunt'].append(dict(idx=f'H{b}', bus=b, g=0.01, b=0.08, Vn=kv[k] * 1.05, Sn=80.0))
+            spec['Shunt'].append(dict(idx=f'H{b}b', bus=b, g=0.0, b=0.05, Vn=kv[k], Sn=100.0))
+            spec['Shunt'].append(dict(idx=f'H{b}o', bus=b, g=0.0, b=0.3, Vn=kv[k], Sn=100.0, u=0))
         if dev == 'shunt+pq':
             spec['Shunt'].append(dict(idx=f'H{b}', bus=b, g=0.01, b=0.08, Vn=kv[k] * 1.05, Sn=80.0))
     return spec
